@@ -1,3 +1,10 @@
+(* go_eq_spec for ConsumeVarint: the hand-unrolled ten-level decoder of wire.go,
+   as translated by srcmodel (Gen/WireGo.v), equals [dec_varint] of
+   Wire/WireModel.v on every byte string: same value, same byte count, same
+   error code, and no Panic (every index is guarded by the preceding length
+   test).  The proof walks the ten levels with one tactic ([cv_level]); the
+   accumulated value is kept abstract ([a < 2^shift]) so each level is a
+   constant-size arithmetic step. *)
 From Coq Require Import List Arith NArith ZArith Lia Bool.
 From Coq Require Import ZifyBool ZifyNat ZifyN.
 From PB Require Import Base.PBytes Base.GoInt Wire.WireModel Wire.WireGrammar Wire.VarintP Wire.ScanP Wire.PrimP.
